@@ -500,6 +500,8 @@ class Domain(object):
                     hs = st0.extra.get('root_handlers', frozenset())
                     st0.extra['root_handlers'] = hs | {node.info['handler'].lineno}
                 state = st0
+            if node.info.get('finally_tag'):
+                state = self.on_stmt(node, state)
             if node.info.get('finally_tag', '').startswith('exc:'):
                 st0 = state.copy()
                 st0.extra[('fexc', node.info['fkey'])] = state.extra.get('exc_src', '?')
